@@ -1,12 +1,12 @@
 package main
 
 import (
-	"regexp"
 	"fmt"
 	"go/token"
 	"go/types"
 	"os"
 	"path/filepath"
+	"regexp"
 	"sort"
 	"strings"
 	"sync"
@@ -18,19 +18,19 @@ import (
 
 // World is the loaded program plus all specifications.
 type World struct {
-	repo     string
-	fset     *token.FileSet
-	prog     *ssa.Program
-	pkgs     []*packages.Package
-	ssaPkgs  map[string]*ssa.Package // by path (all, incl. deps)
-	typPkgs  map[string]*types.Package
-	specs    *SpecSet
-	funcs    map[string]*ssa.Function // by full name, incl. closures and methods
+	repo      string
+	fset      *token.FileSet
+	prog      *ssa.Program
+	pkgs      []*packages.Package
+	ssaPkgs   map[string]*ssa.Package // by path (all, incl. deps)
+	typPkgs   map[string]*types.Package
+	specs     *SpecSet
+	funcs     map[string]*ssa.Function // by full name, incl. closures and methods
 	specFiles []string
 
-	mu       sync.Mutex
-	typeTags map[string]int
-	tagTypes []types.Type
+	mu            sync.Mutex
+	typeTags      map[string]int
+	tagTypes      []types.Type
 	axiomsChecked map[bool]bool // the global axiom set has been submitted for a consistency check (per arithmetic mode)
 }
 
